@@ -42,6 +42,19 @@ static void check_case(vg::Src& s, vh::Ctx& c)
             threw = true;
         }
         c.expect(threw, "nonlinear-on-multi-accepted", "set_slope_exp(" + vg::fmt(sc.n) + ") on a multiple-direction graph was accepted");
+        // the refused call left the eroder as it was (exponent one): same erosion, bit for bit, as
+        // an eroder that never saw the call
+        {
+            auto res = b.graph->update_routes(sc.fc.z);
+            auto area = b.graph->accumulate(2, {}, 1.0, 0);
+            for (auto& a : area)
+                a = std::fabs(a);
+            auto spl_ref = b.graph->make_spl(sc.k_is_array, sc.k, sc.karr, sc.m, 1.0, sc.tol, sc.default_tol);
+            auto e1 = spl->erode(res.out, area, sc.dt), e2 = spl_ref->erode(res.out, area, sc.dt);
+            for (size_t i = 0; i < n; ++i)
+                if (!vg::biteq(e1[i], e2[i]))
+                    c.fail("state-after-refused-call", "after the refused set_slope_exp(" + vg::fmt(sc.n) + ") node " + std::to_string(i) + " erodes " + vg::fmt(e1[i]) + ", an untouched eroder with exponent one " + vg::fmt(e2[i]));
+        }
         c.nontrivial = true;
         c.label("rejection-case");
         return;
